@@ -1206,7 +1206,7 @@ func (it *Interp) finishLoop(fr *Frame, bound *lin.Expr, lc *loopCtx, pos token.
 		}
 		o := i.out
 		it.noteClosures(i.fr, st, i.send.Value)
-		st.Sends = append(st.Sends, &SendInfo{Out: o, Expr: i.send.Value, Frame: i.fr, Cond: i.cond, InLoop: true, Pos: i.pos})
+		st.Sends = append(st.Sends, &SendInfo{Out: o, Expr: i.send.Value, Frame: i.fr, Cond: i.cond, InLoop: true, Pos: i.pos, Steady: nrecv > 0})
 		it.noteOut(st, o)
 		before := ss.sent[o]
 		count := t
